@@ -532,6 +532,9 @@ def emit_fn(u, file, nm, block):
     #      removed) cannot be verified with the spliced headers: it is emitted as an assumed stub so that the rest of the unit
     #      still verifies, and reported as LOST (the check is then undecided for it unless a bounded twin refutes it).
     real_closures = it["closures"]
+    real_closures, perm = closures_in_contract_order(file, nm, real_closures, b)
+    if perm:
+        u.edits.append("%s::%s: closures appear in a different order than when the contract was written; contracts applied by content (%s)" % (file, nm, ", ".join("#%d->source #%d" % p_ for p_ in perm)))
     lost = None
     expected_closures = None
     for l in block:
@@ -543,8 +546,9 @@ def emit_fn(u, file, nm, block):
     for ordn, c in closures.items():
         if ordn >= len(real_closures):
             lost = "anchor lost: %s::%s has %d closures, contract names closure %d" % (file, nm, len(real_closures), ordn)
-        elif c["let"] is not None and real_closures[ordn]["let_name"] != c["let"]:
-            lost = "anchor lost: %s::%s closure %d is no longer `let %s`" % (file, nm, ordn, c["let"])
+        elif c["let"] is not None and real_closures[ordn]["let_name"] is None:
+            # the contract was written for a closure bound to a local (its name may change: a harmless edit)
+            lost = "anchor lost: %s::%s closure %d is no longer bound by a `let` (was `let %s`)" % (file, nm, ordn, c["let"])
     if lost is None and closures and len(real_closures) != max(closures.keys()) + 1 and expected_closures is None:
         # every contract in this code base annotates all closures of its function: a different count is a restructuring
         if len(closures) == max(closures.keys()) + 1:
@@ -814,6 +818,52 @@ def follow_param_renames(contract_header, real_header):
     for k, (_, r_) in enumerate(mapping):
         tmp = tmp.replace("\x00%d\x00" % k, r_)
     return tmp, mapping
+
+
+
+def closure_fingerprint(cl, b):
+    """content hash of a closure: its source text without whitespace, parameter names replaced by positions"""
+    txt = b[cl["start"]:cl["body_end"]].decode()
+    names = _closure_param_names(txt[:cl["header_end"] - cl["start"]]) or []
+    for k, n in enumerate(names):
+        txt = re.sub(r"\b%s\b" % re.escape(n), "\x01%d" % k, txt)
+    return hashlib.sha1(re.sub(r"\s+", "", txt).encode()).hexdigest()[:16]
+
+
+_SNAP = None
+
+
+def closures_in_contract_order(file, nm, real, b):
+    """Contracts name closures by ordinal.  units/closure_fingerprints.json records, for the tree the contracts were written
+    against, the content hash of each closure by ordinal.  If the source now holds the same closures in another order (statements
+    were reordered - a harmless edit), re-order them so that contract #k meets the closure it was written for.  Closures whose
+    content changed keep their relative order.  Returns (closures indexed by contract ordinal, [(contract ord, source ord)] if permuted)."""
+    global _SNAP
+    if _SNAP is None:
+        try:
+            _SNAP = json.load(open(os.path.join(VERIF, "units", "closure_fingerprints.json")))
+        except Exception:
+            _SNAP = {}
+    snap = _SNAP.get("%s::%s" % (file, nm))
+    if not snap or len(snap) != len(real):
+        return real, []
+    cur = [closure_fingerprint(c, b) for c in real]
+    if cur == snap:
+        return real, []
+    assign = [None] * len(snap)
+    used = [False] * len(real)
+    for k, fp in enumerate(snap):          # same content: first unused occurrence
+        for j, fj in enumerate(cur):
+            if not used[j] and fj == fp:
+                assign[k], used[j] = j, True
+                break
+    rest = [j for j in range(len(real)) if not used[j]]
+    for k in range(len(snap)):             # changed content: keep relative order
+        if assign[k] is None:
+            assign[k] = rest.pop(0)
+    if assign == list(range(len(real))):
+        return real, []
+    return [real[j] for j in assign], [(k, j) for k, j in enumerate(assign) if k != j]
 
 
 def run_verus(unit_name, text, workdir, extra_args=None, timeout=900):
